@@ -102,3 +102,35 @@ def rule_forth_input_bytes(rep, fb, floor=2, name="UNIT.forth-input-bytes:bindin
     if n < 2:
         raise AnalysisError("forth.cpp: only %d ForthInputBuffer constructions found" % n)
     return r.done()
+
+
+def rule_cstr_loses_length(rep, fb, floor=1, name="STR.cstr-overload:binding"):
+    r = rep.rule(name, "the binding layer hands `s.c_str()` of a std::string to a libawkward method only where that method has no overload that takes the string with its length (a `const std::string&`, or a "
+                 "pointer plus length): the `const char*` overload measures the text up to the first NUL byte, so bytes and strings that contain one are cut (from_iter([b\"ab\\x00cd\"]) gave b\"ab\")", floor=floor)
+    sig = {}
+    for f in fb.lib_funcs(inst=False):
+        types = [str(p[1]) for p in f["params"]]
+        # a std::string overload carries the length only if it uses it (x.length() / x.size()); one that forwards x.c_str() does not
+        for i, (pn, pt) in enumerate(f["params"]):
+            if "string" in str(pt) and "char" not in str(pt) and not find_all(f["body"], lambda k: k[0] == "mcall" and k[1] in ("length", "size") and k[3] == ("var", pn)):
+                types[i] = "string (length unused)"
+        sig.setdefault(f["name"], []).append(types)
+    n = 0
+    seen = set()
+    for f in lifted(fb):
+        for c in find_all(f["body"], lambda k: k[0] == "mcall" and k[4] and any(a[0] == "mcall" and a[1] == "c_str" for a in k[4])):
+            if id(c) in seen:
+                continue
+            seen.add(id(c))
+            name_ = c[1]
+            overloads = sig.get(name_)
+            if not overloads:
+                continue
+            pos = [i for i, a in enumerate(c[4]) if a[0] == "mcall" and a[1] == "c_str"][0]
+            n += 1
+            # an overload that carries the length: std::string at that position, or (const char*, integer) with one more parameter
+            better = [o for o in overloads if (len(o) == len(c[4]) and pos < len(o) and "string" in o[pos] and "char" not in o[pos] and "length unused" not in o[pos])
+                      or (len(o) == len(c[4]) + 1 and pos + 1 < len(o) and "char" in o[pos] and re.search(r"int64_t|long|size_t", o[pos + 1]))]
+            r.check(not better, "%s#%s%d" % (f["qual"], name_, n), "%s:%d" % (f["file"], c[-1] if isinstance(c[-1], int) else f["line"]),
+                    "%s passes .c_str() to %s although an overload takes the string with its length (%s): text after a NUL byte is lost" % (f["qual"], name_, better[0] if better else ""), detail="no length-carrying overload")
+    return r.done()
